@@ -369,7 +369,7 @@ theorem semToRes_overPlace (o : AOp) (a : V) :
     | _ :: _ :: _ => rfl
   | int n => cases o <;> rfl
   | chr c => cases o <;> rfl
-  | str cs => cases o <;> simp only [overSem, overPlace] <;> (try rfl) <;> (split <;> rfl)
+  | str cs => cases o <;> rfl
   | sym q => cases o <;> rfl
   | ints xs => cases o <;> simp only [overSem, overPlace] <;> (try rfl) <;> (split <;> rfl)
   | undef => cases o <;> rfl
